@@ -93,6 +93,10 @@ func (w *vWorld) fault(verb, resource, name string) error {
 	}
 	// the variable is named after the call's target, not its position, so that
 	// code visiting objects in map order fails at the same object natively
+	// (revision names are hashes of codec output: not part of the name)
+	if strings.HasPrefix(verb, "rev.") {
+		name = ""
+	}
 	if !sym.Bool("fault@" + verb + ":" + name) {
 		return nil
 	}
